@@ -20,7 +20,7 @@ pub struct Model {
 pub enum Predict {
     MustFail,
     MustSucceed,
-    /// The properties do not say (a write attempted when the buffer is already at / over its size limit).
+    /// The properties do not say (a write attempted when the buffer already holds more than 16 + 65535 bytes).
     Unspecified,
 }
 
@@ -55,7 +55,7 @@ impl Model {
             }
             Effect::Oversized => Predict::MustFail,
             Effect::Append(bytes) => {
-                let p = if self.buffer_len() + bytes.len() <= WRITER_LIMIT + 1 { Predict::MustSucceed } else { Predict::Unspecified };
+                let p = if self.buffer_len() <= WRITER_LIMIT { Predict::MustSucceed } else { Predict::Unspecified };
                 self.payload.extend_from_slice(bytes);
                 p
             }
